@@ -954,6 +954,55 @@ def run_crs_churn(R: Run, n: int) -> int:
     return nbad
 
 
+def spelling_case(R: Run, gm, dlab: str, d: str, near: int, reg, sname: str, mk, ident, direction: str, kind: str, shp,
+                  rng, replaying: bool = False):
+    import pyproj
+
+    twin_def = f"EPSG:{near}" if d.upper() != f"EPSG:{near}" else "EPSG:3857"
+    twin_ref = pyproj.CRS.from_user_input(twin_def)
+    case = {"fn": "to_crs-spelling", "def": dlab, "spelling": sname, "direction": direction, "kind": kind, "twin": twin_def,
+            "src": twin_def if direction == "as-target" else f"{dlab}@{sname}",
+            "dst": f"{dlab}@{sname}" if direction == "as-target" else twin_def}
+    try:
+        if direction == "as-target":
+            insrc = _place(shp, reg, rng, _fresh_tr(_ref4326(), twin_ref, True))
+            g = gm.Geometry(insrc, twin_def)
+            dst, dst_ref, fresh, same = mk(), ident, pyproj.Transformer.from_crs(twin_ref, ident, always_xy=True), twin_ref == ident
+        else:
+            insrc = _place(shp, reg, rng, pyproj.Transformer.from_crs("EPSG:4326", ident, always_xy=True))
+            g = gm.Geometry(insrc, mk())
+            dst, dst_ref, fresh, same = twin_def, twin_ref, pyproj.Transformer.from_crs(ident, twin_ref, always_xy=True), twin_ref == ident
+    except Exception as e:  # pylint: disable=broad-except
+        R.oracle(False, "to-crs-raises", case, f"building the {direction} case raised {e!r}")
+        return
+    case["wkt"] = insrc.wkt
+    judge_to_crs(R, gm, g, dst, dst_ref, fresh, same, {}, case, f"spelling|{sname}|{direction}")
+
+
+def _ref4326():
+    if not _REF4326:
+        import pyproj
+
+        _REF4326.append(pyproj.CRS.from_epsg(4326))
+    return _REF4326[0]
+
+
+def run_spelling_matrix(R: Run):
+    from .c01_spellings import NEAR_EPSG, spellings
+
+    gm, _ = _mods()
+    rng = R.rng
+    kinds, _r = shapes_for(rng, "pyth")
+    for k, (dlab, d, near, reg) in enumerate(NEAR_EPSG):
+        sp = spellings(dlab, d, near)
+        if k % 2 == 1:
+            sp = sorted(sp, key=lambda t: 0 if (t[0].startswith("duck") or t[0] == "rasterio") else 1)
+        for sname, mk, ident in sp:
+            for direction in ("as-target", "as-source"):
+                for kind in (("line",) if R.quick else ("line", "polygon+holes")):
+                    spelling_case(R, gm, dlab, d, near, reg, sname, mk, ident, direction, kind, kinds[kind], rng)
+
+
 def run_to_crs_pyproj(R: Run):
     """the real to_crs against fresh pyproj Transformers: EPSG pairs x every keyword, CRSs without EPSG code in every
     lazy state of `.epsg`, and after a churn of several hundred dropped CRS definitions"""
@@ -1057,6 +1106,11 @@ def run_to_crs_pyproj(R: Run):
                 state = "both-read" if lza and lzb else "one-read" if lza or lzb else "unread"
                 judge_to_crs(R, gm, g, cb, refs[db], trs[(da, db)], truth_same, {"resolution": res}, case,
                              f"codeless|{state}|" + ("same" if truth_same else "other"), known_key=known)
+
+    # ---- B2. the CRS spelling / type dimension: target (and source) CRS handed over as int / 'EPSG:n' / WKT1 / WKT2 /
+    #          PROJ string / PROJJSON / dict / pyproj / odc / rasterio / duck-typed objects, for near-EPSG systems whose
+    #          fuzzy to_epsg() names a different CRS; reference = fresh Transformer from the independent identities
+    run_spelling_matrix(R)
 
     # ---- C. caches as a history
     nbad = run_crs_churn(R, R.pick(340, 1500))
@@ -1254,6 +1308,21 @@ def replay(R: Run, rec) -> int:
                 a, b = fnc(float(v)), fnc(sv)
             print(f"{call} with {float(v)!r}: {len(a)} values; with {sk} {sv!r}: {len(b)} values; equal: {list(a) == list(b)}")
             return 0 if list(a) == list(b) else 1
+        if fn == "to_crs-spelling":
+            from .c01_spellings import NEAR_EPSG, spellings
+
+            for dlab, d, near, reg in NEAR_EPSG:
+                if dlab == case["def"]:
+                    for sname, mk, ident in spellings(dlab, d, near):
+                        if sname == case["spelling"]:
+                            kinds, _r = shapes_for(R.rng, "pyth")
+                            before = len(R.oracle_failures)
+                            spelling_case(R, gm, dlab, d, near, reg, sname, mk, ident, case["direction"], case["kind"],
+                                          kinds[case["kind"]], R.rng)
+                            for f in R.oracle_failures[before:]:
+                                print(f["key"], f["what"][:400])
+                            return 1 if len(R.oracle_failures) > before else 0
+            return 0
         if fn == "transformer_to_crs":
             print("history dependent (transformer cache): rerun `check.py C07` with the recorded seed; the record holds the "
                   "pair, the axis order and the probe point")
